@@ -50,9 +50,12 @@ def strategy(draw, tier="quick"):
             "special": draw(st.sampled_from(["none", "none", "collinear", "planar"])),
             "scatter": draw(st.booleans()), "offset": draw(st.sampled_from([0.0, 0.0, 30.0, 300.0])),
             "periodic": draw(st.sampled_from([True, True, False]))}
+    if draw(st.integers(0, 2)) == 0:
+        case["tight"] = True
+        case["scatter"] = draw(st.sampled_from([False, False, True]))
     trip = [[i, i + 1, i + 2] for i in range(n - 2)]
     quad = [[i, i + 1, i + 2, i + 3] for i in range(n - 3)]
-    for _ in range(draw(st.integers(0, 4))):
+    for _ in range(draw(st.integers(4, 8) if case.get("tight") else st.integers(0, 4))):
         t = draw(st.permutations(list(range(n))))[:3]
         trip.append(list(t))
     for _ in range(draw(st.integers(0, 4))):
@@ -134,6 +137,14 @@ def run_case(case):
     import mdtraj as md
     viol, labels = [], ["special:" + case["special"]]
     nf, n, cells, periodic = case["nf"], case["n"], case["cells"], case["periodic"]
+    if cells is not None and case.get("tight"):
+        # a cell only a little more than twice as wide as the group of atoms: the legs between arbitrary atoms of the group come
+        # close to half a cell edge, where (in a skewed cell) another image of the leg can be the shorter one
+        x0 = _coords(dict(case, scatter=False, offset=0.0), None).astype(np.float64)
+        ext = float((x0.max(axis=1) - x0.min(axis=1)).max())
+        fac = (2.05 + (case["seed"] % 10) / 10.0) * max(ext, 0.05) / min(min(c["L"]) for c in cells)
+        cells = [dict(c, L=[float(v) * fac for v in c["L"]]) for c in cells]
+        labels.append("tight-cell")
     Hs = gen.cell_matrices(cells)
     xyz = _coords(case, Hs)
     traj = gen.make_traj(xyz, cells, top=gen.plain_topology(n, element="C", resname="LIG"))
